@@ -42,6 +42,7 @@ type workerResult struct {
 	Mismatches  int               `json:"mismatches"`
 	MismatchRun int64             `json:"mismatch_run"`
 	Digests     map[string]uint64 `json:"digests,omitempty"` // run -> digest (selftest)
+	Harness     []string          `json:"harness,omitempty"` // trouble of the harness itself (never a violation)
 }
 
 type workerViolation struct {
@@ -223,6 +224,14 @@ func workerMain(a workerArgs) int {
 					res.MismatchRun = i
 				}
 			}
+		}
+		if v != nil && v.Kind == "harness" {
+			// the harness could not judge this run (reference process failed,
+			// trusted base inconsistent): trouble, never a violation
+			if len(res.Harness) < 5 {
+				res.Harness = append(res.Harness, fmt.Sprintf("run %d: %s: %s", i, v.Site, v.Detail))
+			}
+			continue
 		}
 		if v != nil {
 			wv := shrinkAndSave(cfg, a, uint64(i), c.Trace, v, prog, stats, skip)
